@@ -28,8 +28,8 @@ func selftestCmd(verifDir, repoDir string, names []string) int {
 	bad := 0
 	type row struct {
 		name, expect, got string
-		wall          float64
-		line          string
+		wall              float64
+		line              string
 	}
 	var rows []row
 	for _, p := range all {
